@@ -35,7 +35,7 @@ def ckpt_cfg(backend, fixed, steps='{1, 2, 3, 4}', saves=3, crashes=1, keeps='{1
 def warm_quick():
   """(module, cfg, kwargs) of the TLC runs the quick tier needs; used by pylib/setup.py to warm the cache."""
   runs = [
-      ('Filters', 'Filters_pairs.cfg', dict(workers=1)),
+      ('Filters', 'Filters_pairs3.cfg', dict(workers=1)),
       ('Filters', 'Filters_groups.cfg', dict(workers=1)),
       ('NnxFilters', 'NnxFilters_quick.cfg', dict(workers=1)),
   ]
